@@ -66,6 +66,8 @@ class C18(Harness):
         out = [{'mode': 'spec', 'gen': 'sym1', 'n': 4 if q else 6},
                {'mode': 'spec', 'gen': 'alpha', 'n': 5 if q else 7},
                {'mode': 'spec', 'gen': 'symall', 'n': 3 if q else 4},
+               {'mode': 'spec', 'gen': 'symcls', 'classes': (1, 2), 'n': 5 if q else 6},
+               {'mode': 'spec', 'gen': 'symcls', 'classes': (1, 3), 'n': 5},
                {'mode': 'idem', 'gen': 'sym1', 'n': 4 if q else 5},
                {'mode': 'idem', 'gen': 'alpha', 'n': 5 if q else 6},
                {'mode': 'indent', 'gen': 'alpha', 'alphabet': ['x', ' ', '\t', '\n', ' '], 'n': 4 if q else 5,
